@@ -14,9 +14,15 @@
     scheduling points INSIDE the critical section: the thread is parked there holding statusLock.
 
     Kind 2 - real-time differential check of return values:
-      input  (2 (prefix start_fails blocks) calls observed-codes)   output  1 if the vector is admissible else 0 *)
+      input  (2 (prefix start_fails blocks) calls observed-codes)   output  1 if the vector is admissible else 0
+
+    Kind 3 - lock view (System/LockOrder.v): per thread of a controlled run, the lock operations it performed
+      input  (3 ((kind done ((acquire? lock) ...)) ...))   kind 0 Start 1 Stop 2 guard goroutine 3 cancel;
+                                                           lock 0 statusLock 1 actorOfLock
+      output per thread (respects-the-hierarchy  is-(a prefix of)-a-program-of-that-kind) *)
 From Coq Require Import List NArith Bool.
 From Vivid Require Import Base.Tm System.Lifecycle.
+From Vivid Require System.LockOrder.
 Import ListNotations.
 Local Open Scope N_scope.
 
@@ -136,6 +142,32 @@ Definition get_call (t : tm) : option call :=
   | _ => None
   end.
 
+Definition get_lop (t : tm) : option LockOrder.op :=
+  match t with
+  | TL [a; TN l] =>
+      match get_bool a with
+      | Some true => Some (LockOrder.Acq l)
+      | Some false => Some (LockOrder.Rel l)
+      | None => None
+      end
+  | _ => None
+  end.
+
+Definition get_lthread (t : tm) : option (N * bool * list LockOrder.op) :=
+  match t with
+  | TL [TN k; d; ops] =>
+      match get_bool d, get_list get_lop ops with
+      | Some d, Some ops => Some (k, d, ops)
+      | _, _ => None
+      end
+  | _ => None
+  end.
+
+Definition lthread_verdict (x : N * bool * list LockOrder.op) : tm :=
+  let '(k, d, ops) := x in
+  TL [tbool (if d then LockOrder.ordered [] ops else LockOrder.ordered_prefix [] ops);
+      tbool (LockOrder.conforms k d ops)].
+
 Definition run_syslife (t : tm) : tm :=
   match t with
   | TL [TN 1; TL [TN cl; TN tmo]; ths; evs] =>
@@ -151,6 +183,11 @@ Definition run_syslife (t : tm) : tm :=
       | Some calls, Some obs =>
           tbool (admissible {| sc_prefix := N.to_nat (N.min sq 64); sc_start_fails := negb (sf =? 0); sc_blocks := negb (bl =? 0) |} calls obs)
       | _, _ => tm_err 2
+      end
+  | TL [TN 3; ths] =>
+      match get_list get_lthread ths with
+      | Some ths => tlist lthread_verdict ths
+      | None => tm_err 3
       end
   | _ => tm_err 0
   end.
